@@ -1398,7 +1398,8 @@ seq_t dtw_warping_paths_ndim(seq_t *wps,
         rvalue = -1;
     }
 
-    if (settings->max_dist > 0 && rvalue > settings->max_dist) {
+    // rvalue is still in the internal (squared) representation here
+    if (settings->max_dist > 0 && rvalue > pow(settings->max_dist, 2)) {
         // DTWPruned keeps the last value larger than max_dist. Correct for this.
         rvalue = INFINITY;
     }
@@ -2189,7 +2190,8 @@ seq_t dtw_warping_paths_affinity_ndim(seq_t *wps,
         rvalue = -1;
     }
 
-    if (settings->max_dist > 0 && rvalue > settings->max_dist) {
+    // rvalue is still in the internal (squared) representation here
+    if (settings->max_dist > 0 && rvalue > pow(settings->max_dist, 2)) {
         // DTWPruned keeps the last value larger than max_dist. Correct for this.
         rvalue = -INFINITY;
     }
